@@ -18,3 +18,40 @@ contract(M + "Task.solve", params=dict(x="list[val]"), returns={"case": "__obj__
          ensures=[("objective-at-x", "implies(scalar_case(), result == F(self, x))"),
                   ("objective-count", "implies(not scalar_case(), len(result) == nobj(self))")],
          properties=["C02", "C05"], verify=False)
+
+# ---- result packaging (C02, C03, C12, C15): sign restored exactly once, positions and fitness kept, own list ----------------
+KW_CASES = [{"has_task_type": True}, {"has_task_type": False}]
+TT = "(kwargs['task_type'] if has_key(kwargs, 'task_type') else TaskType.MIN)"
+
+contract(M + "Population.__init__", params=dict(kwargs='{"agents": "list[Agent]", "task_type?": "TaskType"}'),
+         cases=KW_CASES,
+         lets={"A0": "kwargs['agents']"},
+         assigns=["self.agents"],
+         ensures=[("one-agent-per-agent", "len(self.agents) == len(A0)"),
+                  ("owns-its-list", "fresh(self.agents)"),
+                  ("positions-and-fitness-kept", "all(self.agents[k].position is A0[k].position and"
+                                                 " self.agents[k].fitness == A0[k].fitness for k in range(len(A0)))"),
+                  ("user-sign-cost", "all(self.agents[k].cost == (A0[k].cost if " + TT + " == TaskType.MIN else -A0[k].cost)"
+                                     " for k in range(len(A0)))"),
+                  ("min-keeps-the-objects", "implies(" + TT + " == TaskType.MIN, all(self.agents[k] is A0[k] for k in range(len(A0))))"),
+                  ("max-makes-copies", "implies(" + TT + " != TaskType.MIN, all(fresh(self.agents[k]) for k in range(len(A0))))"),
+                  ("caller-list-untouched", "unchanged(A0)"),
+                  ("objects-untouched", "heap_unchanged('self.agents')")],
+         properties=["C02", "C03", "C12", "C15", "C01"])
+
+contract(M + "OptimizationResult.__init__",
+         params=dict(kwargs='{"evolution": "list[Population]", "rates": "list[float]", "best_solution": "opt[Agent]", "task_type?": "TaskType"}'),
+         cases=KW_CASES,
+         lets={"B0": "kwargs['best_solution']"},
+         assigns=["self.evolution", "self.rates", "self.best_solution"],
+         ensures=[("history-kept", "len(self.evolution) == len(kwargs['evolution']) and"
+                                   " all(self.evolution[k] is kwargs['evolution'][k] for k in range(len(self.evolution)))"),
+                  ("rates-kept", "len(self.rates) == len(kwargs['rates']) and"
+                                 " all(self.rates[k] == kwargs['rates'][k] for k in range(len(self.rates)))"),
+                  ("best-none-iff-none", "(self.best_solution is None) == (B0 is None)"),
+                  ("best-position-fitness-kept", "implies(B0 is not None, self.best_solution.position is B0.position and"
+                                                 " self.best_solution.fitness == B0.fitness)"),
+                  ("best-user-sign-cost", "implies(B0 is not None, self.best_solution.cost =="
+                                          " (B0.cost if " + TT + " == TaskType.MIN else -B0.cost))"),
+                  ("objects-untouched", "heap_unchanged('self.evolution', 'self.rates', 'self.best_solution')")],
+         properties=["C02", "C03", "C12", "C15"])
